@@ -8,6 +8,7 @@ package props
 // nested loop, with and without residual selection). Oracle: nested-loop evaluation in Go.
 
 import (
+	"math"
 	"encoding/json"
 	"fmt"
 	"strings"
@@ -209,7 +210,14 @@ func c11Open(tables []string, contents map[string][]int, st c11Stats) *c11World 
 // The hash join materialises its build side in temporary pages; the contents above never fill one. These
 // contents do: wide rows (nine 600-byte strings), many medium rows (150 x ~30 bytes) and many narrow rows.
 
-func c11WideDefs() map[string]TableDef {
+func c11WideDefs(name string) map[string]TableDef {
+	if name == "float-keys" {
+		// FLOAT join keys: -0.0 and 0.0 are equal values with different bytes (the hash join hashes the bytes)
+		return map[string]TableDef{
+			"lw": {Name: "lw", Cols: []ColDef{{"k", TFloat}, {"s", TStr}}},
+			"r":  {Name: "r", Cols: []ColDef{{"k2", TFloat}, {"b", TInt}}},
+		}
+	}
 	return map[string]TableDef{
 		"lw": {Name: "lw", Cols: []ColDef{{"k", TInt}, {"s", TStr}}},
 		"r":  {Name: "r", Cols: []ColDef{{"k2", TInt}, {"b", TInt}}},
@@ -241,6 +249,12 @@ func c11CollidingKeys() [2]int32 {
 
 func c11WideContents(name string) map[string][][]any {
 	out := map[string][][]any{}
+	if name == "float-keys" {
+		nz := float32(math.Copysign(0, -1))
+		out["lw"] = [][]any{{nz, "negative-zero"}, {float32(0), "zero"}, {float32(1.5), "a"}, {float32(-1.5), "b"}}
+		out["r"] = [][]any{{float32(0), int32(1)}, {nz, int32(2)}, {float32(1.5), int32(30)}, {float32(2.5), int32(40)}}
+		return out
+	}
 	if name == "colliding-hash" {
 		ck := c11CollidingKeys()
 		a, b := ck[0], ck[1]
@@ -269,7 +283,7 @@ func c11WideContents(name string) map[string][][]any {
 	return out
 }
 
-var c11WideNames = []string{"wide9", "medium150", "narrow400", "colliding-hash"}
+var c11WideNames = []string{"wide9", "medium150", "narrow400", "colliding-hash", "float-keys"}
 
 func c11OpenWide(name string, analysed bool) *c11World {
 	w := &c11World{tabs: map[string]*jTable{}}
@@ -279,7 +293,7 @@ func c11OpenWide(name string, analysed bool) *c11World {
 		panic(f.String())
 	}
 	w.db = db
-	defs := c11WideDefs()
+	defs := c11WideDefs(name)
 	cont := c11WideContents(name)
 	for _, t := range []string{"lw", "r"} {
 		td := defs[t]
@@ -303,15 +317,19 @@ func c11OpenWide(name string, analysed bool) *c11World {
 	return w
 }
 
-func c11WideQueries() []*jQuery {
+func c11WideQueries(name string) []*jQuery {
 	var qs []*jQuery
+	one := any(int32(1))
+	if name == "float-keys" {
+		one = float32(0)
+	}
 	for _, order := range [][]string{{"lw", "r"}, {"r", "lw"}} {
 		on := [4]string{"lw", "k", "r", "k2"}
 		if order[0] == "r" {
 			on = [4]string{"r", "k2", "lw", "k"}
 		}
 		for _, sel := range [][][2]string{nil, {{"lw", "s"}, {"r", "b"}}, {{"r", "b"}, {"lw", "k"}}} {
-			for _, wh := range [][]jLeaf{nil, {{"lw", "k", "=", int32(1)}}, {{"r", "b", ">=", int32(10)}}} {
+			for _, wh := range [][]jLeaf{nil, {{"lw", "k", "=", one}}, {{"r", "b", ">=", int32(10)}}} {
 				qs = append(qs, &jQuery{Tables: order, On: [][4]string{on}, OnInWhere: []bool{false}, Where: wh, Sel: sel})
 			}
 		}
@@ -475,13 +493,18 @@ func c11Run(c *core.Ctx) {
 			keys := map[string][]int{}
 			for _, t := range q.Tables {
 				for _, r := range w.tabs[t].Rows {
-					keys[t] = append(keys[t], int(r[0].(int32)))
+					if k, ok := r[0].(int32); ok {
+						keys[t] = append(keys[t], int(k))
+					}
 				}
 			}
 			if wideName != "" {
 				cont = []string{"contents " + wideName + fmt.Sprintf(" (lw: %d rows, r: %d rows)", len(w.tabs["lw"].Rows), len(w.tabs["r"].Rows))}
 				keys = nil
 				clause += "/large-build-side"
+				if wideName == "float-keys" || wideName == "colliding-hash" {
+					clause = strings.TrimSuffix(clause, "/large-build-side") + "/" + wideName
+				}
 			}
 			res.Violate(&core.Violation{Property: "C11", Signature: "join/" + clause,
 				Detail: fmt.Sprintf("%s\n  tables: %s; statistics: %s\n  plan  : %s\n  %s", sql, strings.Join(cont, " "), st.Name, strs[i], firstN(detail, 600)),
@@ -492,7 +515,7 @@ func c11Run(c *core.Ctx) {
 		}
 	}
 	// build sides larger than one temporary page
-	res.Bound["large_build_sides"] = fmt.Sprintf("%v x statistics {never-updated, current} x %d queries, every plan", c11WideNames, len(c11WideQueries()))
+	res.Bound["large_build_sides"] = fmt.Sprintf("%v x statistics {never-updated, current} x %d queries, every plan", c11WideNames, len(c11WideQueries("")))
 	for _, name := range c11WideNames {
 		for _, analysed := range []bool{false, true} {
 			item++
@@ -509,7 +532,7 @@ func c11Run(c *core.Ctx) {
 				stName = "current"
 			}
 			wideName = name
-			for _, q := range c11WideQueries() {
+			for _, q := range c11WideQueries(name) {
 				check(w, q, c11Stats{Name: stName, Cur: analysed})
 			}
 			wideName = ""
@@ -639,7 +662,7 @@ func c11Replay(raw json.RawMessage) (string, bool) {
 	}
 	json.Unmarshal(raw, &rp)
 	if rp.Wide != "" {
-		for _, q := range c11WideQueries() {
+		for _, q := range c11WideQueries(rp.Wide) {
 			if q.SQL() != rp.SQL {
 				continue
 			}
